@@ -57,6 +57,15 @@ non-positive noise draw the strict filter `count + noise > τ` fails as soon as 
 theorem singleton_not_deterministic (noise tau : ℝ) (hn : noise ≤ 0) (ht : 1 ≤ tau) : ¬ ((1 : ℝ) + noise > tau) := by
   intro h; linarith
 
+/-- keys with public values: which keys are released does not depend on the data at all (only the aggregates beside them do) -/
+theorem public_keys_independent_of_data {κ ν : Type} (vals : List κ) (agg agg' : κ → Option ν) :
+    (Tau.releasePublic vals agg).map (·.1) = (Tau.releasePublic vals agg').map (·.1) ∧ (Tau.releasePublic vals agg).map (·.1) = vals := by
+  simp [Tau.releasePublic, List.map_map, Function.comp_def]
+
+/-- a key column computed by grouping the protected rows does depend on them: removing the only row of a key removes the key -/
+theorem keys_from_data_depend_on_data :
+    Tau.releaseFromData [("a", 1), ("c", 5)] ≠ Tau.releaseFromData ([("a", 1)] : List (String × Nat)) := by decide
+
 /-- integer form used by the executable model: released keys have count + noise > τ -/
 theorem released_iff (count noise tau : Int) : released count noise tau = true ↔ count + noise > tau := by
   simp [released]
